@@ -202,13 +202,80 @@ def run(tier):
         defs = ["T_%s" % f for f in c["named"]]          # Ref: exactly the definitions of the named files
         records.append(proj.trace_record(r, produced, defs, {"level": "warning"}))
         meta.append(info)
+    # ---- homonyms (IncludesNames.tla): a file is <<directory, name>>; an include names a NAME; which file it denotes depends on
+    #      the directory of the including file, then on the library
+    hc = os.path.join(wd, "names.cfg")
+    open(hc, "w").write('SPECIFICATION Spec\nCONSTANTS\n  Names = {"u", "v"}\n  MaxFiles = 4\n  MaxEdges = %d\n  MaxNamed = 2\n'
+                        'INVARIANT EachOnce\nINVARIANT ReadsAreReachable\nINVARIANT UserIffNamed\nINVARIANT ErrorsExact\nINVARIANT Emit\n'
+                        'PROPERTY Terminates\nCHECK_DEADLOCK FALSE\n' % (2 if tier == "quick" else 3))
+    hgen = run_tlc("IncludesNames", hc, "c19", workers=8, cases_suffix="-names", timeout=3000, xmx="12g")
+    if hgen.violated:
+        v.drift.append("L1: IncludesNames.tla violates %s" % hgen.violated)
+    hcases = list(read_ndjson(hgen.cases_path))
+    hcap = 4000 if tier == "quick" else 30000
+    if len(hcases) > hcap:
+        hcases = rnd.sample(hcases, hcap)
+
+    def hpath(f):
+        return "%s/%s.circom" % (f[0], f[1])
+
+    def hrender(c):
+        files = []
+        order = [tuple(f) for f in c["named"]] + [tuple(f) for f in c["exists"] if list(f) not in [list(x) for x in c["named"]]]
+        for f in order:
+            incs = sorted(e[1] for e in c["inc"] if tuple(e[0]) == f)
+            text = "pragma circom 2.0.0;\n" + "".join('include "%s.circom";\n' % n for n in incs) + \
+                   "template T_%s_%s() {\n  signal input a;\n  signal output o;\n  o <-- a + 1;\n}\n" % f
+            files.append({"path": hpath(f), "text": text, "named": list(f) in [list(x) for x in c["named"]]})
+        for d in ("s1", "s2", "lib"):
+            files.append({"path": d + "/keep.txt", "text": "", "named": False})
+        return files
+    hjobs = [(i, c, hrender(c)) for i, c in enumerate(hcases)]
+    write_ndjson(pin, [{"id": i, "files": files, "libs": ["lib"]} for i, c, files in hjobs])
+    vh(["produce", pin, pout], timeout=3000)
+    horacle = list(read_ndjson(pout))
+    for (i, c, files), doc in zip(hjobs, horacle):
+        info = {"case": c, "files": files, "libs": ["lib"]}
+        if "panic" in doc:
+            v.violation("include:panic " + doc["panic"]["site"], info)
+            continue
+        cnt = collections.Counter("/".join(f["path"].replace("\\", "/").split("/")[-2:]) for f in doc["files"])
+        reach = set(hpath(f) for f in c["reachable"])
+        for f in c["exists"]:
+            want = 1 if hpath(f) in reach else 0
+            got = cnt.get(hpath(f), 0)
+            if got != want:
+                v.violation("include:homonym: file read %s" % ("more than once" if got > want else "not at all" if want else "although another file of that name is meant"),
+                            dict(info, file=hpath(f), library_entries=[x["path"] for x in doc["files"]]))
+        for f in doc["files"]:
+            rel = "/".join(f["path"].split("/")[-2:])
+            if f["named"] != (rel in [hpath(x) for x in c["named"]]):
+                v.violation("include:named/included status wrong", dict(info, file=rel))
+        errs = [r for r in doc["parse"] if r["id"] == "P1000" and r["msg"].startswith("Failed to open file")]
+        if len(errs) != len(c["unresolved"]):
+            v.violation("include:homonym: include errors differ from the unresolvable include statements",
+                        dict(info, expected=c["unresolved"], parse_reports=[r["msg"] for r in doc["parse"]]))
+
+    def hone(job):
+        i, c, files = job
+        return proj.run_binary(files, os.path.join(wd, "bin", "h%d" % i), {"level": "warning", "verbose": i % 2 == 0}, libs=["lib"], timeout=30)
+    hb = hjobs if tier == "quick" else rnd.sample(hjobs, min(len(hjobs), 6000))
+    for (i, c, files), r in zip(hb, proj.par_runs(hb, hone, workers=10)):
+        info = {"case": c, "files": files, "libs": ["lib"], "argv": r["argv"], "stdout": r["stdout"][-2500:], "stderr": r["stderr"][-400:], "exit": r["code"]}
+        if r["timeout"]:
+            v.violation("include:does not terminate", info)
+            continue
+        if "panic" in horacle[i]:
+            continue
+        records.append(proj.trace_record(r, proj.produced_list(horacle[i], files), ["T_%s_%s" % tuple(f) for f in c["named"]], {"level": "warning"}))
+        meta.append(info)
     rejects, tstates = proj.validate_traces(records, "c19")
     for idx, why in rejects:
         v.violation("include:" + why, meta[idx])
-    n_eval = len(jobs) + len(records)
+    n_eval = len(jobs) + len(hjobs) + len(records)
     cov = {"states": l1.distinct + gen.distinct + tstates, "transitions": l1.generated + gen.generated + tstates,
            "traces_validated_against_impl": n_eval, "exhaustive": tier == "quick", "evaluations": n_eval, "distinct_nontrivial": nontriv,
-           "rule": "every include relation over files %s plus a missing target x every placement in src/lib x every sequence of <= 2 "
+           "rule": "homonyms (IncludesNames.tla): every project of <= 3 files over two source directories and the library directory in which one name exists twice, every set of include statements and sequence of named files, each include resolved relative to the including file, then through -L; and every include relation over files %s plus a missing target x every placement in src/lib x every sequence of <= 2 "
                    "named files (%d projects%s), spellings (plain, ./, sub/../, symlink, -L dir / -L file, named via ./ or symlink) "
                    "rotated over the edges; each project run in-process and through the real binary (%d runs validated by "
                    "RunnerTrace.tla); non-trivial = has an unresolved edge, a library edge or an included-only file" %
